@@ -111,7 +111,7 @@ pub fn strategy() -> BoxedStrategy<Case> {
         12usize..400,
         prop::collection::vec(req, 1..6),
         inbound,
-        0u8..4,
+        0u8..6,
         prop_oneof![2 => Just(None), 2 => (-3i32..=3).prop_map(Some)],
         // second connection with a smaller maximum while something is retained
         prop_oneof![2 => Just(None), 1 => (2u32..40).prop_map(Some)],
@@ -144,11 +144,14 @@ pub fn strategy() -> BoxedStrategy<Case> {
                 }
                 3 => {
                     // a syntactically valid PUBLISH whose total length is rx-1, rx, rx+1 or huge
+                    // (the last two sit on the 3- and 4-byte remaining-length boundaries)
                     let total = match in_size {
                         0 => rx - 1,
                         1 => rx,
                         2 => rx + 1,
-                        _ => rx + 70_000,
+                        3 => rx + 70_000,
+                        4 => 16_384 + 4,
+                        _ => 2_097_152 + 5,
                     };
                     let mut payload = total.saturating_sub(2 + 3 + 1);
                     let mut bytes = Vec::new();
